@@ -43,11 +43,14 @@ CFG = dict(
         + [tu("c14_asan8", SRC, "asan", extra=X + ["-DC14_PART=8"]),
            tu("c14_asan9", SRC, "asan", extra=X + ["-DC14_PART=9"]),
            # copy_and_convert_pixels with a stateful user converter, any/concrete and concrete/any forms
-           tu("c14_asan10", SRC, "asan", extra=X + ["-DC14_PART=10"])],
+           tu("c14_asan10", SRC, "asan", extra=X + ["-DC14_PART=10"]),
+           # storage geometry (row pitch, row/plane offsets, alignment residues) of owning any_images after every mutating operation
+           tu("c14_asan11", SRC, "asan", extra=X + ["-DC14_PART=11"])],
     runs=[run("c14_asan%d" % k, shards={"quick": 2, "thorough": 6}, min_cases={"quick": CASES[k], "thorough": CASES[k]}) for k in range(NPARTS)]
         + [run("c14_asan8", shards=2, min_cases={"quick": 6, "thorough": 6}),
            run("c14_asan9", shards=2, min_cases={"quick": 6, "thorough": 6}),
-           run("c14_asan10", shards={"quick": 2, "thorough": 6}, min_cases={"quick": 72, "thorough": 72})],
+           run("c14_asan10", shards={"quick": 2, "thorough": 6}, min_cases={"quick": 72, "thorough": 72}),
+           run("c14_asan11", shards={"quick": 2, "thorough": 6}, min_cases={"quick": 6, "thorough": 6})],
     require_obs=["binary.compatible", "binary.bad_cast", "binary.converted", "equal.compatible", "equal.bad_cast", "fill.compatible", "fill.bad_cast",
-                 "binary.shapes-differ.bad_cast", "binary.shapes-differ.ok", "equal.shapes-differ.bad_cast"],
+                 "binary.shapes-differ.bad_cast", "binary.shapes-differ.ok", "equal.shapes-differ.bad_cast", "geometry"],
 )
